@@ -1,4 +1,5 @@
 import Agd.Gen.TrC11
+import Agd.Model.HashPrefix
 /-!
 # C11: what happens to a hash-prefix (TXT) query, and which questions are filtered — on translated source
 
@@ -188,6 +189,28 @@ theorem filterRequest_single_lookup (f : S_hashprefix_Filter) (rq : S_internal_R
       obtain ⟨rfl, rfl, rfl⟩ := h
       simp [cnt, names]
 
+/-! ## Round 6: the hand model's `isFilterable` equals the translated one -/
+
+/-- golibs `netutil.AddrFamilyFromRRType` as documented and as in v0.30.4 (`addrfam.go`): A ↦
+`AddrFamilyIPv4` (1), AAAA ↦ `AddrFamilyIPv6` (2), everything else ↦ `AddrFamilyNone` (0).  This is
+the library behaviour `isFilterable_tr` assumes (trusted base; not translated). -/
+def famOf (qt : Nat) : Int := if qt = 1 then 1 else if qt = 28 then 2 else 0
+
+/-- **The hand model's `isFilterable` is the translated one**, for every question type, given the
+library's address-family table: the hash-prefix filters look at A, AAAA and HTTPS questions and at
+nothing else; the family handed to `respForFamily` is the library's (none for HTTPS). -/
+theorem isFilterable_tr (qt : Nat) :
+    (isFilterable (qt : Int) (famOf qt)).2 = Agd.HashPrefix.isFilterable qt ∧
+    (isFilterable (qt : Int) (famOf qt)).1 = (if qt = 65 then 0 else famOf qt) := by
+  by_cases h1 : qt = 65
+  · subst h1; simp [isFilterable, Agd.HashPrefix.isFilterable]
+  · by_cases h2 : qt = 1
+    · subst h2; simp [isFilterable, Agd.HashPrefix.isFilterable, famOf]
+    · by_cases h3 : qt = 28
+      · subst h3; simp [isFilterable, Agd.HashPrefix.isFilterable, famOf]
+      · have : ¬ ((qt : Int) = 65) := by omega
+        simp [isFilterable, Agd.HashPrefix.isFilterable, famOf, h1, h2, h3, this]
+
 end Agd.Tie.TrC11
 
 #print axioms Agd.Tie.TrC11.translation_complete
@@ -197,3 +220,4 @@ end Agd.Tie.TrC11
 #print axioms Agd.Tie.TrC11.txt_only
 #print axioms Agd.Tie.TrC11.filterable_iff
 #print axioms Agd.Tie.TrC11.resp_for_family
+#print axioms Agd.Tie.TrC11.isFilterable_tr
